@@ -80,6 +80,18 @@ check("C01",
       "TLA+ spec (QSpectral decimal verdicts, Loosen action property) model-checked with TLC; replay of TLC-emitted cases concretised in spectral coordinates",
       "DESIGN.md §4 C01")
 
+check("C04",
+      "TLC (MC_C04 over QProj): spectral clipping on every grid vector is feasible, idempotent, fixes exactly the feasible points and satisfies the variational inequality <x - Px, z - Px> <= 0 against every feasible grid competitor; the equality projections of the four object types (exact rationals in H-coordinates, a deterministic family of which a third is feasible) are feasible, idempotent, fix exactly the feasible objects and leave a residual orthogonal to every direction of the constraint subspace in the stacked-parameter metric. Binding: each case is concretised (spectral vectors in seeded identity / real / complex frames on every fragment of that size; rational objects through the coordinate maps) and calc_proj_ineq_constraint, calc_proj_eq_constraint, their static *_with_var forms under both flags and the func_calc_proj_* closures must return the exact projection, object-level = variable-level, no argument modified; the variational inequality is also evaluated against seeded non-commuting feasible competitors.",
+      "Trusted: QProj definitions; nearest-point-ness against non-commuting competitors rests on the classical theorem plus the sampled inequality; scales by homogeneity.",
+      "TLA+ spec (QProj: clipping / affine projections, variational inequality) model-checked with TLC; replay of exact projections into the implementation",
+      "DESIGN.md §4 C04")
+
+check("C05",
+      "TLC (MC_C05 over QProj) runs the Dykstra-type machine of calc_proj_physical in exact rational arithmetic on spectral coordinates: K sweeps from every grid point and from a list of longer vectors, both projection orders; invariants: the closed form (simplex projection) is physical and nearest (variational inequality against every physical grid point, the vertices and the centre), physical inputs are fixed, conservation x0 = x + p + q, iterates feasible for their constraint, distance to the nearest physical point never increases (action property), err = 0 only at the fixed point. Binding: every behaviour is concretised on each fragment of matching size; the recorded iteration history (x, y, p, q, error_value) must equal the exact iterates sweep by sweep, the returned object must be the closed form to the accuracy its threshold implies (three thresholds, both orders, object- and variable-level under both flags), the stopping rule and termination are checked on the history, physical inputs come back unchanged; for generic non-commuting inputs: feasibility, order independence, object/variable agreement, fixed point, conservation and error-value consistency of the history.",
+      "Trusted: the covariant-fragment reduction (twirling argument) and QProj!ProjSimplexV; no closed form for non-commuting POVMs / generic gates (no SDP oracle used); termination observed, not proved.",
+      "TLA+ spec (exact Dykstra machine + simplex projection) model-checked with TLC; replay of exact iterates against the recorded iteration history of the implementation",
+      "DESIGN.md §4 C05")
+
 ALL = ["C%02d" % i for i in range(1, 21)]
 
 def main():
